@@ -80,6 +80,9 @@ func runSolver(ctx context.Context, sp solverSpec, file string, secs int) Solver
 
 // Solve races the solvers on one obligation.
 func Solve(o *Obligation, workDir string, secs int, all bool) OblResult {
+	if o.Cover && secs > 3 {
+		secs = 3
+	}
 	script := o.Script(false)
 	file := filepath.Join(workDir, safeFile(o.Name)+".smt2")
 	os.MkdirAll(workDir, 0o755)
